@@ -123,6 +123,18 @@ pub fn jobs(tier: Tier) -> Vec<Job> {
             v.push(pipeline_job("c05-live", case, &run, FINE, 2, true));
         }
     }
+    // the coordinators' notification protocol on the smallest blocks, at its own granularity
+    for c in [blocks::independent(spec, 2), blocks::independent(spec, 3), blocks::nonce_chain(spec, 2), blocks::funding_chain(spec, 2), blocks::nonce_gap(spec)] {
+        for w in [1usize, 2] {
+            let b = match (tier, w) {
+                (Tier::Quick, 1) => 4,
+                (Tier::Quick, _) => 3,
+                (Tier::Thorough, 1) => 5,
+                (Tier::Thorough, _) => 4,
+            };
+            v.push(pipeline_job("c05-coord", &c, &RunCfg::parallel(w), FOCUS_COORD, b, true));
+        }
+    }
     for c in &two {
         let run = RunCfg::parallel(2);
         v.push(pipeline_job("c05-live", c, &run, FINE, if tier == Tier::Quick { 2 } else { 3 }, true));
